@@ -15,7 +15,7 @@ if desc:
     open(f"{dst}/description.md", "w").write(desc)
 meta = {
     "breaks_property": pid,
-    "origin": "independent sub-agent given only the property text and a scratch worktree of /repo HEAD" + (" (round 2: asked for changes that depend on history, far boundaries, numeric corners, build profile or two cooperating sites)" if tag == "r2m" else " (round 3: asked for changes in less obvious code sites: trait impls, constructors, accessors, card-layer conversions, other API paths)" if tag == "r3m" else " (round 4: asked for performance-motivated and clean-up rewrites: caches, fast paths, precomputed tables, data-structure swaps, iterator adaptors, merged functions)" if tag == "r4m" else " (round 5: asked for minimal edits of at most three changed lines: operators, boundary constants, indexes, swapped names, regex characters, table literals, dropped statements)" if tag == "r5m" else ""),
+    "origin": "independent sub-agent given only the property text and a scratch worktree of /repo HEAD" + (" (round 2: asked for changes that depend on history, far boundaries, numeric corners, build profile or two cooperating sites)" if tag == "r2m" else " (round 3: asked for changes in less obvious code sites: trait impls, constructors, accessors, card-layer conversions, other API paths)" if tag == "r3m" else " (round 4: asked for performance-motivated and clean-up rewrites: caches, fast paths, precomputed tables, data-structure swaps, iterator adaptors, merged functions)" if tag == "r4m" else " (round 5: asked for minimal edits of at most three changed lines: operators, boundary constants, indexes, swapped names, regex characters, table literals, dropped statements)" if tag == "r5m" else " (round 6: asked for changes that need a conjunction to manifest: two cooperating sites, a data-dependent corner with two conditions, a multi-step sequence, far positions or a narrow numeric band)" if tag == "r6m" else ""),
     "needs_to_manifest": (desc.split("\n\n")[0][:600] if desc else ""),
     "confirmed": {
         "how": "confirm_mutant.sh in the scratch worktree: cargo test --offline --lib with the patch; demo as tests/m_demo.rs with and without the patch",
@@ -23,7 +23,7 @@ meta = {
         "demo_with_patch": "fails",
         "demo_on_head": "passes",
     },
-    "checks_run": f"try_mutant.sh patch.diff {caught if caught != '-' else ''} {missed if missed != '-' else ''}".strip(),
+    "checks_run": f"{os.environ.get('MUT_RUNNER', 'try_mutant.sh')} patch.diff {caught if caught != '-' else ''} {missed if missed != '-' else ''}".strip(),
     "caught_by_quick": [] if caught == "-" else caught.split(","),
     "missed_by_quick": [] if missed == "-" else missed.split(","),
     "observed": note,
